@@ -10,6 +10,7 @@ from gv.astutil import AnalysisError
 from gv.astutil import arg_or_kw
 from gv.astutil import const_value
 from gv.astutil import dotted
+from gv.astutil import kwarg
 from gv.astutil import last_attr
 from gv.astutil import mangle
 from gv.astutil import names_in
@@ -812,8 +813,47 @@ def check_conversions(ctx: Ctx, view: View) -> None:
     check_cursor_loops(ctx, "2.9-cursor", cname("utils/data_conversion.py", None, "split_array_to_dict_of_arrays"), g, min_loops=1)
 
 
+def check_view_selection(ctx: Ctx) -> None:
+    """The vector view (cached arrays) is returned only for all the variables, as an array, while the cache is valid."""
+    from gv.cfg import cfg_of
+    from gv.props.shared import literal_facts
+
+    f = ctx.index.method(DSF, "DesignSpace", "__get_values")
+    con = cname(DSF, "DesignSpace", "__get_values")
+    cfg = cfg_of(f)
+    n = 0
+    for r in [s_ for s_ in stmts_of(f) if isinstance(s_, ast.Return) and isinstance(s_.value, ast.Name)]:
+        facts = literal_facts(cfg, cfg.node_of(r))
+        if r.value.id == "value_as_array":
+            n += 1
+            ok = facts.get("self.__norm_data_is_computed") is True and facts.get("variable_names") is False and facts.get("as_dict") is False
+            ctx.ob("2.3-view", con, ok, f"the cached vector of ALL the variables is returned under {facts}: it is the answer only when the cache is valid, no variable subset is requested and an array is wanted; otherwise the vector view and the per-variable view disagree", node=r, stmt="cached array only for (cache valid, all variables, array)")
+        elif r.value.id == "value_as_dict":
+            n += 1
+            ok = facts.get("variable_names") is False and facts.get("as_dict") is True
+            ctx.ob("2.3-view", con, ok, f"the dictionary of all the variables is returned under {facts}: it answers only the request for all variables as a dictionary", node=r, stmt="whole dictionary only for (all variables, dict)")
+    for c in [c_ for c_ in walk_body(f) if isinstance(c_, ast.Call) and last_attr(c_) == "convert_dict_to_array"]:
+        n += 1
+        kw = kwarg(c, "variable_names")
+        ok = dotted(c.args[0]) == "value_as_dict" and (dotted(kw) == "variable_names" or (len(c.args) > 1 and dotted(c.args[1]) == "variable_names"))
+        ctx.ob("2.3-view", con, ok, "a subset (or the uncached case) is assembled from the per-variable values of exactly the requested names", node=c)
+    ctx.need(n >= 3, "__get_values: the three return forms were not found")
+    # the callers hand over the per-variable dictionary and the cached array of the same quantity
+    for m, d, a in (("get_lower_bounds", "_lower_bounds", "__lower_bounds_array"), ("get_upper_bounds", "_upper_bounds", "__upper_bounds_array")):
+        g = ctx.index.cls(DSF, "DesignSpace").methods.get(m)
+        if g is None:
+            continue
+        calls = rules.self_calls(g, "__get_values")
+        if calls:
+            txt = norm_stmt(calls[0])
+            low = "lower" in m
+            ok = ("lower" in txt) == low and ("upper" in txt) == (not low)
+            ctx.ob("2.3-view", cname(DSF, "DesignSpace", m), ok, f"{m} must combine the per-variable and the cached values of the same bound", node=calls[0])
+
+
 def run(ctx: Ctx) -> None:
     ds = ctx.index.cls(DSF, "DesignSpace")
+    check_view_selection(ctx)
     view = View(ctx, ds)
     check_coupdate(ctx, view)
     check_protocols(ctx, view)
@@ -837,6 +877,9 @@ def run(ctx: Ctx) -> None:
 
 # ---------------------------------------------------------------------------
 WITNESSES = [
+    {"name": "cached-vector-for-a-subset", "file": DSF, "old": "        if self.__norm_data_is_computed and not variable_names and not as_dict:", "new": "        if self.__norm_data_is_computed and not as_dict:", "expect": "2.3"},
+    {"name": "cached-vector-without-validity", "file": DSF, "old": "        if self.__norm_data_is_computed and not variable_names and not as_dict:", "new": "        if not variable_names and not as_dict:", "expect": "2.3"},
+    {"name": "whole-dictionary-for-a-subset", "file": DSF, "old": "        if not variable_names:\n            return value_as_dict\n\n        return {name: value_as_dict[name] for name in variable_names}", "new": "        return value_as_dict", "expect": "2.3"},
     {"name": "remove_variable-no-invalidate", "file": DSF, "old": "        self.__norm_data_is_computed = False\n        size = self._variables[name].size", "new": "        size = self._variables[name].size", "expect": "2.2"},
     {"name": "set_upper_bound-no-invalidate", "file": DSF, "old": "        self._variables[name].upper_bound = upper_bound\n        self._add_norm_policy(name)\n        self.__norm_data_is_computed = False", "new": "        self._variables[name].upper_bound = upper_bound\n        self._add_norm_policy(name)", "expect": "2.2"},
     {"name": "set_lower_bound-no-policy", "file": DSF, "old": "        self._variables[name].lower_bound = lower_bound\n        self._add_norm_policy(name)\n", "new": "        self._variables[name].lower_bound = lower_bound\n", "expect": "2.1"},
